@@ -545,12 +545,12 @@ def year_siblings(an, rep, rule='R2.9', refusing_only=False, floor=650):
                 d = an.defs.get((y, fname, lname))
                 if d is not None:
                     sigs[y] = signature(d, mir)
-                    if refusing_only:      # C09 judges the refusals alone: whether, when, and over which copies
-                        sg = sigs[y]
-                        sigs[y] = ((), sg[1], (), (), sg[4], sg[5])
+                    if refusing_only:      # C09 judges only how a refusing line walks the copies (a `break` leaves later copies untested);
+                        sg = sigs[y]       # WHETHER this line refuses is R9.1/R9.2's business - another reader may refuse in its place
+                        sigs[y] = ((), False, (), (), tuple(e for e in sg[4] if e != 'collapse'), ())   # a set over the copies loses amounts, not tests
             if len(sigs) < 2:
                 continue
-            if refusing_only and not any(sg[1] for sg in sigs.values()):
+            if refusing_only and not any(signature(an.defs[(y, fname, lname)], mir)[1] for y in sigs):
                 continue
             n += 1
             distinct = {}
